@@ -23,10 +23,18 @@
                          every later conversion of that object reads the rewritten body
    `obj[p]` is the state of the object the caller of process p keeps.
 
+   A fourth place: a process-wide lookup TABLE (the SQLAlchemy emitters' `typ2column_type`: type name -> column type).  A column of a
+   plain type T looks T up with a fallback; a column of `Union[L, T]` / an array of T decides by MEMBERSHIP of T in the table.
+       Registers = FALSE   the table is only ever read                                               (the code as it is: `.get(T, T)`)
+       Registers = TRUE    a lookup that misses leaves an entry behind (`.setdefault(T, T)`): the same union column is written
+                           differently once any earlier conversion in the process had a plain column of type T
+   `reg[p]` is the set of type names process p's table holds beyond its initial content.
+
    Functional: equal (api, input) => equal output, across processes, seeds and histories.                      *)
 EXTENDS Naturals, Sequences, FiniteSets, TLC, Json
 
-CONSTANTS MaxSig, MaxCalls, OrderedMerge, ReadsLeak, OrderedScan, Aliases
+CONSTANTS MaxSig, MaxCalls, OrderedMerge, ReadsLeak, OrderedScan, Aliases, Registers,
+          TableCalls       \* BOOLEAN: the table-consulting emissions are among the calls (kept out of the largest configuration)
 
 Seeds == {1, 2}
 Procs == {"A", "B"}
@@ -61,26 +69,39 @@ ToClass(x) == x.phr = <<2>>
 \* what a conversion of the kept object returns, given the state in which the parser finds the body
 OutShared(x, body) == <<200 + x.phr[1]>> \o (IF ~ToClass(x) /\ body = "rewritten" THEN <<300>> ELSE <<>>)
 
-VARIABLES seed, leak, calls, obj
-vars == <<seed, leak, calls, obj>>
+\* emissions that consult the table: n = 0, doc = <<t>> names the type, phr = <<3>>: a plain column of t, <<4>>: a column of Union[int, t]
+TableTypes == {1}                                                                   \* a type name the initial table does not hold
+TableInputs == {[n |-> 0, doc |-> <<t>>, phr |-> <<k>>] : t \in TableTypes, k \in {3, 4}}
+IsPlain(x) == x.phr = <<3>>
+OutTable(x, table) == <<400 + x.phr[1], 600 + x.doc[1]>> \o (IF ~IsPlain(x) /\ x.doc[1] \in table THEN <<500>> ELSE <<>>)
+
+VARIABLES seed, leak, calls, obj, reg
+vars == <<seed, leak, calls, obj, reg>>
 
 Init == /\ seed \in [Procs -> Seeds]
         /\ leak = [p \in Procs |-> 0]
         /\ calls = [p \in Procs |-> <<>>]
         /\ obj = [p \in Procs |-> "pristine"]
+        /\ reg = [p \in Procs |-> {}]
 
 Call(p, x) == /\ Len(calls[p]) < MaxCalls
               /\ calls' = [calls EXCEPT ![p] = Append(@, [input |-> x, out |-> Out(x, seed[p], leak[p])])]
               /\ leak' = [leak EXCEPT ![p] = @ + 1]           \* every call may leave state behind
-              /\ UNCHANGED <<seed, obj>>
+              /\ UNCHANGED <<seed, obj, reg>>
 CallShared(p, x) == /\ Len(calls[p]) < MaxCalls
                     /\ calls' = [calls EXCEPT ![p] = Append(@, [input |-> x, out |-> OutShared(x, obj[p])])]
                     /\ obj' = [obj EXCEPT ![p] = IF Aliases /\ ToClass(x) THEN "rewritten" ELSE @]
                     /\ leak' = [leak EXCEPT ![p] = @ + 1]
-                    /\ UNCHANGED seed
+                    /\ UNCHANGED <<seed, reg>>
+CallTable(p, x) == /\ Len(calls[p]) < MaxCalls
+                   /\ calls' = [calls EXCEPT ![p] = Append(@, [input |-> x, out |-> OutTable(x, reg[p])])]
+                   /\ reg' = [reg EXCEPT ![p] = IF Registers /\ IsPlain(x) THEN @ \cup {x.doc[1]} ELSE @]
+                   /\ leak' = [leak EXCEPT ![p] = @ + 1]
+                   /\ UNCHANGED <<seed, obj>>
 
 Next == \/ \E p \in Procs, x \in InputsOK : Call(p, x)
         \/ \E p \in Procs, x \in SharedInputs : CallShared(p, x)
+        \/ (TableCalls /\ \E p \in Procs, x \in TableInputs : CallTable(p, x))
 Spec == Init /\ [][Next]_vars
 
 Functional == \A p, q \in Procs : \A a \in 1..Len(calls[p]), b \in 1..Len(calls[q]) :
@@ -91,6 +112,8 @@ Covered == \A p \in Procs : \A a \in 1..Len(calls[p]) :
 
 \* what the caller handed in is still what the caller holds
 CallerObjectUntouched == \A p \in Procs : obj[p] = "pristine"
+\* the process-wide table is what it was when the process started
+TableReadOnly == \A p \in Procs : reg[p] = {}
 
 Stop == calls["A"] = <<>> /\ calls["B"] = <<>>
 \* the inputs themselves are dumped once (from the initial states' point of view they are constants)
